@@ -661,7 +661,7 @@ class AbstractFormat:
         if other.neg_bound > self.neg_bound:
             return False
         # 3. precision — only constraining when other has a finite normal region
-        if not isinstance(other.prec, float) and not isinstance(other.exp, float):
+        if not isinstance(other.prec, float):
             if self.prec > other.prec:
                 # easy check failed: other's spacing in its normal region widens faster.
                 # Containment still holds if self's bound stays within the region where
